@@ -436,7 +436,8 @@ pub fn s_long_auto(thorough: bool) -> Space {
     // one foreign character at every position of a long digit / alphanumeric string
     let base_len = if thorough { 400 } else { 120 };
     for p in 0..base_len {
-        for &(m, foreign) in &[(0usize, b'A'), (0, b'a'), (0, b':'), (0, 0x2Fu8), (0, 0x3A), (1, b'a'), (1, b'#'), (1, 0x80u8), (1, b'`'), (1, b'[')] {
+        // (among digits also the characters a lenient number parser lets through: sign, point, exponent, blank, underscore, 0x)
+        for &(m, foreign) in &[(0usize, b'A'), (0, b'a'), (0, b':'), (0, 0x2Fu8), (0, 0x3A), (0, b'+'), (0, b'-'), (0, b'.'), (0, b' '), (0, b'e'), (0, b'E'), (0, b'_'), (0, b'x'), (1, b'a'), (1, b'#'), (1, 0x80u8), (1, b'`'), (1, b'[')] {
             let mut s = spaces::content(if m == 0 { Family::Ctr } else { Family::Hi }, m, base_len);
             s[p] = foreign;
             cases.push(auto_case(s));
